@@ -30,6 +30,7 @@
  */
 #define _GNU_SOURCE
 #include <dirent.h>
+#include <pthread.h>
 #include <fcntl.h>
 #include <stdbool.h>
 #include <stdint.h>
@@ -40,6 +41,7 @@
 #include <unistd.h>
 #include "mtbl.h"
 #include "shims/shims.h"
+#include <pthread.h>
 #include "exec.h"
 
 size_t __sanitizer_get_current_allocated_bytes(void) __attribute__((weak));
@@ -101,10 +103,26 @@ static void rdestroy(struct robj *o)
 	memset(o, 0, sizeof *o);
 }
 
+/* thread creation leaves allocations behind that are not the library's: glibc keeps the stacks of joined threads (with their
+ * TLS / dtv blocks, which come from malloc) in a cache and reuses them.  How many threads a pool actually starts depends on
+ * timing (an idle worker is reused, a busy one is not), so the cache could grow in the measured pass and not in the warm-up
+ * pass.  Filling the cache once, with more concurrent threads than any history uses, takes that out of the heap ledger. */
+static volatile int warm_go;
+static void *warm_thread(void *p) { (void)p; while (!warm_go) usleep(500); return NULL; }
+static void warm_thread_cache(void)
+{
+	static int done; if (done) return; done = 1;
+	enum { NW = 64 }; pthread_t th[NW]; int n = 0;
+	for (int i = 0; i < NW; i++) if (pthread_create(&th[n], NULL, warm_thread, NULL) == 0) n++;
+	warm_go = 1;
+	for (int i = 0; i < n; i++) pthread_join(th[i], NULL);
+}
+
 int ops_res(char **a, int na)
 {
 	const char *op = a[0];
 	if (!strcmp(op, "res.begin")) {
+		warm_thread_cache();
 		for (int i = 0; i < 64; i++) if (R[i].k != R_NONE) rdestroy(&R[i]);
 		snprintf(rdir, sizeof rdir, "%s/res", vf_tmpdir); mkdir(rdir, 0700);
 		snprintf(rtmp, sizeof rtmp, "%s/res/tmp", vf_tmpdir); mkdir(rtmp, 0700);
